@@ -99,8 +99,20 @@ namespace {
 struct EncJob { Recipe r; };
 void body_encoder(Task &T, const Recipe &r) {
   vorbis_info vi; vorbis_info_init(&vi); int ret;
-  switch (r.mode) { case 0: ret = vorbis_encode_init_vbr(&vi, r.ch, r.rate, (float)r.q); break; case 1: ret = vorbis_encode_init(&vi, r.ch, r.rate, -1, r.nominal, -1); break;
-    case 2: ret = vorbis_encode_init(&vi, r.ch, r.rate, r.nominal + r.nominal / 3, r.nominal, r.nominal - r.nominal / 3); break; default: ret = vorbis_encode_init(&vi, r.ch, r.rate, r.nominal, r.nominal, r.nominal); }
+  // the three-step set-up (what the one-call forms do internally), with the control interface's queries between the steps
+  switch (r.mode) { case 0: ret = vorbis_encode_setup_vbr(&vi, r.ch, r.rate, (float)r.q); break; case 1: ret = vorbis_encode_setup_managed(&vi, r.ch, r.rate, -1, r.nominal, -1); break;
+    case 2: ret = vorbis_encode_setup_managed(&vi, r.ch, r.rate, r.nominal + r.nominal / 3, r.nominal, r.nominal - r.nominal / 3); break; default: ret = vorbis_encode_setup_managed(&vi, r.ch, r.rate, r.nominal, r.nominal, r.nominal); }
+  if (!ret) { 
+  // the control interface's queries write into caller storage: whatever that storage held before (here: the phase's poison) must not show in what comes back
+  { auto fill = [&](void *p, size_t n) { unsigned char *q = (unsigned char *)p; Prng pr(T.pseed ^ 0x6e7); for (size_t i = 0; i < n; i++) q[i] = T.poison_mode == 0 ? 0 : T.poison_mode == 1 ? 0xFF : T.poison_mode == 2 ? 0xAA : (unsigned char)pr.next(); };
+    struct ovectl_ratemanage2_arg r2; fill(&r2, sizeof r2); int g2 = vorbis_encode_ctl(&vi, OV_ECTL_RATEMANAGE2_GET, &r2); T.h.i64(g2);
+    if (!g2) { T.h.i64(r2.management_active); T.h.i64(r2.bitrate_limit_min_kbps); T.h.i64(r2.bitrate_limit_max_kbps); T.h.i64(r2.bitrate_limit_reservoir_bits); T.h.bytes(&r2.bitrate_limit_reservoir_bias, 8); T.h.i64(r2.bitrate_average_kbps); T.h.bytes(&r2.bitrate_average_damping, 8); }
+    struct ovectl_ratemanage_arg r1; fill(&r1, sizeof r1); int g1 = vorbis_encode_ctl(&vi, OV_ECTL_RATEMANAGE_GET, &r1); T.h.i64(g1);
+    if (!g1) { T.h.i64(r1.management_active); T.h.i64(r1.bitrate_hard_min); T.h.i64(r1.bitrate_hard_max); T.h.bytes(&r1.bitrate_hard_window, 8); T.h.i64(r1.bitrate_av_lo); T.h.i64(r1.bitrate_av_hi); T.h.bytes(&r1.bitrate_av_window, 8); T.h.bytes(&r1.bitrate_av_window_center, 8); }
+    double lp; fill(&lp, sizeof lp); int g3 = vorbis_encode_ctl(&vi, OV_ECTL_LOWPASS_GET, &lp); T.h.i64(g3); if (!g3) T.h.bytes(&lp, 8);
+    double ib; fill(&ib, sizeof ib); int g4 = vorbis_encode_ctl(&vi, OV_ECTL_IBLOCK_GET, &ib); T.h.i64(g4); if (!g4) T.h.bytes(&ib, 8);
+    int cp; fill(&cp, sizeof cp); int g5 = vorbis_encode_ctl(&vi, OV_ECTL_COUPLING_GET, &cp); T.h.i64(g5); if (!g5) T.h.i64(cp); }
+    ret = vorbis_encode_setup_init(&vi); }
   T.h.i64(ret); if (ret) { vorbis_info_clear(&vi); return; }
   vorbis_comment vc; vorbis_comment_init(&vc); vorbis_comment_add_tag(&vc, "T", "mtsim");
   vorbis_dsp_state vd; vorbis_block vb; T.api("vorbis_analysis_init", [&] { return vorbis_analysis_init(&vd, &vi); }); vorbis_block_init(&vd, &vb);
@@ -146,6 +158,9 @@ void body_vorbisfile(Task &T, const PhysStream &ps, int64_t total, uint64_t seed
     else if (seekable && u < 0.34) { int64_t p = (int64_t)g.below((uint64_t)ps.bytes.size() + 1); int rr = T.api("ov_raw_seek", [&] { return ov_raw_seek(&vf, p); }); T.h.i64(rr); T.h.i64(ov_pcm_tell(&vf)); }
     else if (seekable && u < 0.40) { double t = g.unit() * ov_time_total(&vf, -1); int rr = T.api("ov_time_seek_page", [&] { return ov_time_seek_page(&vf, t); }); T.h.i64(rr); T.h.i64(ov_pcm_tell(&vf)); }
     else if (seekable && u < 0.44) { int rr = T.api("ov_halfrate", [&] { return ov_halfrate(&vf, (int)g.below(2)); }); T.h.i64(rr); T.h.i64(ov_pcm_tell(&vf)); }
+    else if (u < 0.50) {   // the query calls: what they report is a function of the stream and the position only
+      int li = (int)g.below(4) - 1; T.h.i64(ov_bitrate_instant(&vf)); T.h.i64(ov_bitrate(&vf, li)); T.h.i64(ov_serialnumber(&vf, li)); T.h.i64(ov_streams(&vf)); T.h.i64(ov_raw_tell(&vf)); double tt = ov_time_tell(&vf), tl = ov_time_total(&vf, li); T.h.bytes(&tt, 8); T.h.bytes(&tl, 8);
+      T.h.i64(ov_pcm_total(&vf, li)); T.h.i64(ov_raw_total(&vf, li)); vorbis_info *qi = ov_info(&vf, li); T.h.i64(qi ? qi->channels : -1); T.h.i64(qi ? qi->rate : -1); vorbis_comment *qc = ov_comment(&vf, li); T.h.i64(qc ? qc->comments : -1); }
     else if (u < 0.70) { int reps = 1 + (int)g.below(4); for (int k = 0; k < reps; k++) { float **pcm; int sec; int len = 1 + (int)g.below(4096); long n = T.api("ov_read_float", [&] { return ov_read_float(&vf, &pcm, len, &sec); }); T.h.i64(n); if (n <= 0) break; vorbis_info *vi = ov_info(&vf, -1); for (int c = 0; c < vi->channels; c++) T.h.f32s(pcm[c], (size_t)n); T.h.i64(sec); } }
     else { int reps = 1 + (int)g.below(4); int word = 1 + (int)g.below(2), sg = (int)g.below(2), be = (int)g.below(2); for (int k = 0; k < reps; k++) { int sec; int len = 64 + (int)g.below(8000); long n = T.api("ov_read", [&] { return ov_read(&vf, buf.data(), len, be, word, sg, &sec); }); T.h.i64(n); if (n <= 0) break; T.h.bytes(buf.data(), (size_t)n); } }
   }
